@@ -23,22 +23,24 @@ def sh(cmd, cwd=None, timeout=3600):
 
 # properties anchored in functions that the source-to-Lean translators cover
 MOD_FUNCS = {
-    "C01": ["ac_generate_ac", "mac_pad1", "mac_pad2"],
-    "C02": ["ac_generate_arpc_1", "ac_generate_arpc_2", "tools_xor", "mac_pad2"],
-    "C03": ["kd_derive_icc_mk_a", "kd_derive_icc_mk_b", "tools_xor"],
-    "C04": ["kd_derive_common_sk", "kd_derive_visa_sm_sk", "tools_xor"],
-    "C06": ["sm_generate_command_mac"],
-    "C07": ["sm_encrypt_command_data", "mac_pad2"],
+    "C01": ["ac_generate_ac", "mac_mac3", "mac_pad1", "mac_pad2"],
+    "C02": ["ac_generate_arpc_1", "ac_generate_arpc_2", "tools_xor", "tools_cbc", "mac_mac3", "mac_pad2"],
+    "C03": ["kd_derive_icc_mk_a", "kd_derive_icc_mk_b", "tools_xor", "tools_ecb", "tools_adjust"],
+    "C04": ["kd_derive_common_sk", "kd_derive_visa_sm_sk", "tools_xor", "tools_ecb", "tools_adjust"],
+    "C06": ["sm_generate_command_mac", "mac_mac3", "mac_pad2"],
+    "C07": ["sm_encrypt_command_data", "mac_pad2", "tools_ecb", "tools_cbc"],
     "C08": ["ac_generate_ac", "ac_generate_arpc_1", "ac_generate_arpc_2", "kd_derive_icc_mk_a", "kd_derive_icc_mk_b",
             "kd_derive_common_sk", "kd_derive_visa_sm_sk", "sm_generate_command_mac", "sm_encrypt_command_data",
-            "sm_format_vis", "sm_format_iso2"],
-    "C11": ["cvv_generate_cvc3"],
+            "sm_format_vis", "sm_format_iso2", "mac_mac3"],
+    "C11": ["cvv_generate_cvc3", "mac_mac3", "tools_ecb"],
     "C12": ["sm_format_vis", "sm_format_iso2", "tools_xor"],
-    "C13": ["kd_derive_icc_mk_a", "kd_derive_icc_mk_b", "kd_derive_common_sk", "kd_derive_visa_sm_sk"],
+    "C13": ["tools_adjust", "tools_odd_parity", "kd_derive_icc_mk_a", "kd_derive_icc_mk_b", "kd_derive_common_sk",
+            "kd_derive_visa_sm_sk"],
     "C15": ["ac_generate_ac", "ac_generate_arpc_1", "ac_generate_arpc_2", "kd_derive_common_sk", "kd_derive_visa_sm_sk",
-            "sm_generate_command_mac", "sm_encrypt_command_data", "sm_format_vis", "sm_format_iso2", "cvv_generate_cvc3"],
+            "sm_generate_command_mac", "sm_encrypt_command_data", "sm_format_vis", "sm_format_iso2", "cvv_generate_cvc3",
+            "mac_mac3"],
     "C16": ["kd_derive_icc_mk_a", "kd_derive_icc_mk_b", "sm_format_vis", "sm_format_iso2"],
-    "C19": ["mac_pad1", "mac_pad2", "tools_xor", "tools_odd_parity"],
+    "C19": ["mac_pad1", "mac_pad2", "tools_xor", "tools_odd_parity", "tools_kcv", "tools_cbc", "tools_ecb"],
 }
 
 
